@@ -22,6 +22,20 @@ class Ref:
 
     def __init__(self, schema: Dict[str, Any]):
         self.schema = schema
+        # the name pools of the generators follow the schema of the tree under test: a name the schema
+        # starts to allow must be generated (a loader that still refuses it is a finding)
+        try:
+            defs = schema.get("definitions", {})
+            bt = [x for x in defs.get("BaseTypes", {}).get("enum", []) if isinstance(x, str)]
+            for x in bt:
+                if x not in BASE_NAMES:
+                    BASE_NAMES.append(x)
+            for alt in defs.get("MapKeyType", {}).get("anyOf", []):
+                for x in alt.get("properties", {}).get("name", {}).get("enum", []) if isinstance(alt, dict) else []:
+                    if isinstance(x, str) and x not in MAPKEY_NAMES:
+                        MAPKEY_NAMES.append(x)
+        except Exception:
+            pass
         self.defs = schema["definitions"]
         rooted = dict(schema)
         rooted["$ref"] = "#/definitions/MetaModel"
